@@ -5,10 +5,16 @@ rows = []
 for m in sorted(glob.glob('/verif/seeded/*/meta.json')):
     d = json.load(open(m))
     det = d.get('detected_by_quick_checks') or ''
-    rules = sorted(set(re.findall(r'(C\d+)\{\[([A-Z0-9-]+)/', det)))
+    rules = sorted(set(re.findall(r'(C\d+)(?:\([^)]*\))?\{\[([A-Z0-9-]+)/', det)))
     by = ', '.join('%s %s' % (p, r) for p, r in rules) if rules else '**missed**'
     summ = d['summary']
     summ = re.sub(r'^C\d+\s*/\s*\w+\s*[—-]+\s*', '', summ)
+    if re.match(r'^C\d+ / round \d+ / change \w+$', summ.strip()) or len(summ.strip()) < 12:
+        nf = os.path.join(os.path.dirname(m), 'notes.md')
+        if os.path.exists(nf):
+            body = ' '.join(l.strip() for l in open(nf).read().strip().split('\n')[1:] if l.strip())
+            body = re.sub(r'\*\*|`', '', body)
+            summ = body
     rows.append('| %s | %s | %s | %s |' % (d['name'], summ[:110].replace('|', '/'), ', '.join(os.path.basename(f) for f in d['files_changed']), by))
 n = len(rows); hit = sum(1 for r in rows if '**missed**' not in r)
 tab = '| change | what it does | file | caught by (quick checks) |\n|---|---|---|---|\n' + '\n'.join(rows) + '\n\n%d of %d seeded changes are caught; no quick check of an unrelated property fires on any of them.\n' % (hit, n)
